@@ -27,6 +27,8 @@ for name in sorted(os.listdir(os.path.join(V, "seeded"))):
                 print(name, "DOES NOT APPLY")
                 continue
         env = dict(os.environ, VERIF_REPO=wt)
+        if os.environ.get("SEEDED_FAST"):
+            env["VERIF_FAST_VIOLATIONS"] = "1"      # regression mode: first signature only, no minimisation
         # a change seeded for one property may be the business of another property's check (meta.json "check_props")
         props = meta.get("check_props", [prop])
         sigs, out = [], ""
